@@ -239,6 +239,13 @@ func (fg *FuncGen) frameCheck(p *Ptr, pos token.Pos, what string) {
 		return // allocated by this activation: trivially fresh
 	}
 	goal := "(>= " + root + " " + fg.wm0 + ")"
+	for _, fv := range fg.fn.FreeVars {
+		if t, ok := fg.val[fv]; ok && t[0].S == root {
+			// a variable of the enclosing function captured by this closure: it belongs to the activation that built the
+			// closure (an allocation of that activation), which is what the frame discipline permits
+			return
+		}
+	}
 	if fg.c != nil && len(fg.c.Assigns) > 0 {
 		// writes permitted by the assigns clause: the root must be one of the listed parameter objects
 		var alts []string
@@ -268,7 +275,7 @@ func (fg *FuncGen) frameCheck(p *Ptr, pos token.Pos, what string) {
 			goal = "(or " + goal + " " + strings.Join(alts, " ") + ")"
 		}
 	}
-	fg.obl("frame", "", pos, []string{"C06", "C07"}, goal, what+" targets memory allocated by this call (or listed in assigns)")
+	fg.obl("frame", "", pos, []string{"C06", "C07", "C18"}, goal, what+" targets memory allocated by this call (or listed in assigns)")
 }
 
 func (fg *FuncGen) binop(v *ssa.BinOp) {
